@@ -8,10 +8,10 @@ Local Open Scope Z_scope.
 Definition pm_inv_wf (inv : list pm_obj) : Prop :=
   forall o, In o inv -> pm_lookup inv (po_type o) (po_name o) = Some o.
 
-Lemma pm_name_one_lookup pf inv t n fr o : pm_name_one pf inv t n fr = inr o -> pm_lookup inv t n = Some o.
+Lemma pm_name_one_lookup pf inv t n fr o fr' : pm_name_one pf inv t n fr = inr (o, fr') -> pm_lookup inv t n = Some o.
 Proof.
   unfold pm_name_one. destruct (pm_lookup inv t n) as [o'|]; [|discriminate].
-  destruct (pm_eval_opt pf (pm_frame_sv fr) o'); try discriminate. intros H; inversion H; reflexivity.
+  destruct (pm_evalf [] pf fr o') as [ns r]. destruct r; try discriminate. intros H; inversion H; reflexivity.
 Qed.
 
 Lemma pm_name_list_named pf inv t : forall ns acc fr res,
@@ -20,7 +20,7 @@ Lemma pm_name_list_named pf inv t : forall ns acc fr res,
 Proof.
   induction ns as [|m r IH]; intros acc fr res H; cbn in H.
   - inversion H; subst. split; [auto|intros n []].
-  - destruct (pm_name_one pf inv t m fr) as [e|o] eqn:E; [discriminate|].
+  - destruct (pm_name_one pf inv t m fr) as [e|[o fr']] eqn:E; [discriminate|].
     destruct (IH _ _ _ H) as [Hm Hn]. split.
     + intros x Hx. apply Hm. apply in_or_app. left. assumption.
     + intros n [<-|Hin]; [|auto]. exists o. split; [eapply pm_name_one_lookup; eassumption|].
@@ -33,8 +33,8 @@ Lemma pm_names_type_named pf inv q t acc res :
 Proof.
   unfold pm_names_type, pm_names. intros H.
   destruct (pm_q_single q t) as [n0|] eqn:S.
-  - destruct (pm_name_one pf inv t n0 []) as [e|o] eqn:E; [discriminate|].
-    pose proof (pm_name_one_lookup _ _ _ _ _ _ E) as L0.
+  - destruct (pm_name_one pf inv t n0 []) as [e|[o fr0]] eqn:E; [discriminate|].
+    pose proof (pm_name_one_lookup _ _ _ _ _ _ _ E) as L0.
     destruct (pm_q_plural q t) as [ns|] eqn:P.
     + destruct (pm_name_list_named _ _ _ _ _ _ _ H) as [Hm Hn]. split.
       * intros x Hx. apply Hm. apply in_or_app. left. assumption.
@@ -124,7 +124,7 @@ Proof.
   apply filter_In in Hk. destruct Hk as [Hk Hb]. cbn in Hb. destruct b; [discriminate|]. cbn [fst].
   unfold pm_allows in Hk. destruct (pm_has_permission u perm) as [found pf] eqn:E. destruct found; [|destruct Hk].
   apply in_flat_map in Hk. destruct Hk as (o & Ho & Hk).
-  destruct (pm_eval_opt pf None o) eqn:Ev; cbn in Hk; try (destruct Hk as [Hk|[]]; inversion Hk; subst; clear Hk); try destruct Hk.
+  destruct (pm_eval_opt pf o) eqn:Ev; cbn in Hk; try (destruct Hk as [Hk|[]]; inversion Hk; subst; clear Hk); try destruct Hk.
   unfold pm_key_allowed, pm_key_of. cbn [fst snd]. rewrite (Hwf o Ho).
   eapply pm_granted_allow; [exact Hne| |exact Ev]. unfold pm_check_permission. rewrite E. reflexivity.
 Qed.
